@@ -2,7 +2,7 @@
 from __future__ import annotations
 
 import random
-import warnings
+import sys
 
 import core
 from gen import licenses as G
@@ -166,7 +166,7 @@ def max_depth(toks):
 
 # --------------------------------------------------------------------------- inputs
 
-DEPTH_LIMIT = 150   # beyond this the interpreter's parser limits inside eval() take over (listed finding)
+sys.setrecursionlimit(max(sys.getrecursionlimit(), 10000))   # the reference parser recurses twice per parenthesis
 
 
 def input_string(inp):
@@ -182,45 +182,24 @@ def input_string(inp):
     return G.spell(random.Random(inp.get("seed", 0)), toks, recase=inp.get("recase", True))
 
 
-_SKEL = {"F": "False", "a": "and", "o": "or", "(": "(", ")": ")"}
-
-
-def real_eval(sk):
-    """Python's own eval on a skeleton, the way the function calls it"""
-    with warnings.catch_warnings():
-        warnings.simplefilter("ignore")
-        try:
-            v = eval(" ".join(_SKEL[c] for c in sk), {}, {})  # noqa: S307 - five fixed tokens
-        except SyntaxError:
-            return "err SyntaxError"
-        except TypeError:
-            return "err TypeError"
-        except Exception as e:  # noqa: BLE001
-            return "err " + type(e).__name__
-    return repr(v)
-
-
 class C19(Prop):
     id = "C19"
     lean_modules = ["PkgProofs.Props.C19"]
     generated = ["SpdxTables", "SpdxUnicode"]
-    theorems = ["C19.table_wellformed", "C19.lower_table_ok", "C19.spaces_ok", "C19.refPattern_is_modelled"]
+    theorems = ["C19.table_wellformed", "C19.spaces_ok", "C19.refPattern_is_modelled", "C19.asciiLower_is_modelled"]
     rule = ("expressions generated from the SPDX grammar over the bundled LICENSES/EXCEPTIONS (popular ids repeated, "
-            "whole table sampled), LicenseRef- ids, random ASCII case and white space (incl. non-ASCII str.isspace "
-            "characters); 19 kinds of token-level damage (missing/extra operands, operators, parentheses, '+', WITH "
-            "placement, empty/doubled parentheses, LicenseRef case twins, odd code points); arbitrary strings; for the "
-            "eval model: all skeletons over False/and/or/(/) up to length 6 (8 in thorough) plus random longer ones. "
-            "non-trivial = accepted by the implementation (or, for lic.eval, not a SyntaxError)")
+            "whole table sampled), LicenseRef- ids, '+' suffixes, random ASCII case and white space (incl. non-ASCII "
+            "str.isspace characters), nesting up to 6 and occasionally 150-400 deep; 19 kinds of token-level damage "
+            "(missing/extra operands, operators, parentheses, '+', WITH placement, empty/doubled parentheses, LicenseRef "
+            "case twins, odd code points incl. U+212A/U+0130/U+017F/NUL/lone surrogate); arbitrary strings. "
+            "non-trivial = accepted by the implementation")
     trusted = [
-        "CPython eval() on the five-token skeleton as modelled by Lic.pyEval (validated exhaustively on short skeletons "
-        "and randomly on longer ones by the lic.eval correspondence)",
-        "str.split()/str.isspace/str.lower as measured per code point from the running interpreter (Gen.SpdxUnicode)",
+        "str.split()/str.isspace as measured per code point from the running interpreter (Gen.SpdxUnicode); "
+        "str.translate with the regenerated _ASCII_LOWER table; str.replace on one- and two-character patterns",
+        "the one regular expression license_ref_allowed is hand-modelled (Lic.refAllowed); its source text is pinned by "
+        "C19.refPattern_is_modelled",
     ]
-    partial = [
-        "the interpreter's parser limits inside eval() (about 200 nested parentheses) are not modelled; inputs nested "
-        "deeper than 150 are outside correspondence and laws except for the one listed finding",
-        "str.lower's context-dependent final-sigma rule is not modelled (a token containing U+03A3 is rejected either way)",
-    ]
+    partial = []
     budget = {"quick": (9000, 5000), "thorough": (520000, 120000)}
 
     def __init__(self):
@@ -231,6 +210,8 @@ class C19(Prop):
         """-> (label, law-input dict)"""
         r = rng.random()
         sd = rng.randrange(1 << 30)
+        if r < 0.004:
+            return "deep", {"toks": _deep(rng.choice([150, 199, 200, 201, 400]), rng.choice(["AND", "OR"])), "seed": sd}
         if r < 0.38:
             return "valid", {"toks": G.expr(rng, 0, rng.choice([1, 2, 3, 4, 6])), "seed": sd}
         if r < 0.86:
@@ -250,42 +231,24 @@ class C19(Prop):
 
     # ---- correspondence
     def gen_cases(self, rng, n):
-        import itertools
-        small = 6 if n < 100000 else 8
-        k = 0
-        for ln in range(small + 1):
-            for t in itertools.product("Fao()", repeat=ln):
-                yield ("lic.eval", ["".join(t) or "-"])
-                k += 1
-        m = max(200, n // 10)
-        for _ in range(m):
-            yield ("lic.eval", [G.skeleton(rng) or "-"])
         while True:
             label, inp = self._case(rng)
             s = input_string(inp)
-            if max_depth(ref_tokens(s)) > DEPTH_LIMIT:
-                continue
             a = core.enc(s)
             self._label[a] = label
             yield ("lic.canon", [a])
 
     def real(self, op, args):
-        if op == "lic.eval":
-            return real_eval("" if args[0] == "-" else args[0])
         return proto(real_canon(core.dec(args[0])))
 
     def nontrivial(self, op, args, out):
-        return out != "err SyntaxError" if op == "lic.eval" else out.startswith("ok ")
+        return out.startswith("ok ")
 
     def branch(self, op, args, out):
-        if op == "lic.eval":
-            return "eval:" + out
         label = self._label.get(args[0], "?").split("+")[0]
         return f"{label}:{out.split(' ', 1)[0] if not out.startswith('raw') else out}"
 
     def judge(self, op, args, real, model, driver):
-        if op != "lic.canon":
-            return None          # a wrong eval model is my defect, not the repository's
         s = core.dec(args[0])
         for law in ("exception_class", "accept_iff_wf", "canon_is_spdx_canon", "idempotent"):
             try:
@@ -318,12 +281,12 @@ class C19(Prop):
     def check_law(self, law, inp):
         s = input_string(inp)
         toks = ref_tokens(s)
-        if max_depth(toks) > DEPTH_LIMIT and law != "deep_nesting_accepted":
-            raise ValueError("beyond the modelled nesting depth")
+        if max_depth(toks) > 2000:
+            raise ValueError("too deep for the reference parser")
         r = real_canon(s)
         if law == "exception_class":
             return r[0] != "raw", f"canonicalize_license_expression({s!r}) raised {r[1]}, not InvalidLicenseExpression"
-        if law in ("accept_iff_wf", "deep_nesting_accepted"):
+        if law == "accept_iff_wf":
             want = ref_canon(s)
             if r[0] == "raw":
                 # neither accepted nor rejected as documented: exception_class reports it; here only "accepted although ill-formed" counts
@@ -349,8 +312,8 @@ class C19(Prop):
         raise KeyError(law)
 
 
-def _deep(d):
-    return ["(", "MIT", "AND"] * d + ["MIT"] + [")"] * d
+def _deep(d, op="AND"):
+    return ["(", "MIT", op] * d + ["MIT"] + [")"] * d
 
 
 # one witness per deviation class (DESIGN §8 rows 17, 18 and what the machinery added)
@@ -368,7 +331,7 @@ WITNESSES = [
     ("canon_is_spdx_canon", {"s": "LicenseRef-Foo OR LicenseRef-foo"}),
     ("accept_iff_wf", {"s": "Kastrup"}),
     ("accept_iff_wf", {"s": "LicenseRef-K"}),
-    ("deep_nesting_accepted", {"toks": _deep(200), "seed": 0, "recase": False}),
+    ("accept_iff_wf", {"toks": _deep(200), "seed": 0, "recase": False}),
 ]
 
 PROP = C19()
